@@ -252,6 +252,10 @@ def show(tm, depth=0) -> str:
         return f"elem({show(tm[1], d)})"
     if tag == "comp":
         return f"<{tm[1]}comp {show(tm[2], d)} for … in {show(tm[3][0][1], d) if tm[3] else '?'}>"
+    if tag == "classconst":
+        return f"{tm[1].split('.')[-1]}.{tm[2]}"
+    if tag == "coro":
+        return f"<coroutine {show(tm[1], d)}>"
     if tag == "await":
         return f"await {show(tm[1], d)}"
     if tag == "starred":
